@@ -48,13 +48,14 @@ def run(chk: harness.Check):
         "Number(value·factor) and Range{start·factor, end·factor}; scale_to_servings passes target/base with base = first declared servings or 1; "
         "(D4) every field of the scaled recipe and of each scaled component other than the quantity is a move of the same-named input field, "
         "ScaledData.{ingredients,cookware,timers} are the outcome halves of the unzip over the same-named vectors, the cookware chain contains no "
-        "call to Quantity::fit; (D5) the servings list is not reordered. No number is computed.")
+        "call to Quantity::fit; (D5) the servings list is not reordered; (D6) the outcome paired with a scaled component is the one its own Scale::scale returned, passed through the post-scale fit untouched. No number is computed.")
     chk.trusted = ["rustc MIR", "Iterator::map/unzip preserve order and length"]
     chk.analysed = {"facts": th}
     d1_linear(chk, F)
     d2_identity(chk, F)
     d3_formula(chk, F)
     d4_lineage(chk, F)
+    d6_outcome_origin(chk, F)
     c13.d3_servings(chk, F)
     # scaling fits the scaled quantity (scale.rs → Quantity::fit → fit_fraction): "multiplied by f as a physical amount
     # (whatever unit it is then fitted to)" needs both ends of a re-expressed range converted to the new unit
@@ -231,6 +232,44 @@ def _norm_mul(t):
         a, b = sorted([m.group(1), m.group(2)])
         return f"({a} Mul {b})"
     return t
+
+
+def d6_outcome_origin(chk, F):
+    """'per-component outcomes that … name the case that applied': inside ScalableRecipe::scale the outcome paired with a component
+    is the one its own Scale::scale call returned — every closure of the map chains that yields `(component, ScaleOutcome)` either
+    returns that call's result directly or rebuilds the pair with the incoming outcome untouched (the post-scale fit does not
+    rewrite it)."""
+    R = "C08.D6-outcome-origin"
+    n = 0
+    for g in F.region_funcs(S + "scale"):
+        if not g.is_closure() or not norm(g.local_ty(0)).rstrip(")").endswith("scale::ScaleOutcome"):
+            continue
+        n += 1
+        where = f"{g.file}:{g.line}"
+        found = False
+        for b, t in g.calls():
+            if t.get("dest", {}).get("l") == 0 and not t["dest"].get("p"):
+                found = True
+                k = callee_key(t) or ""
+                chk.expect(k.endswith("scale::Scale>::scale"), R, f"{g.key.rsplit('::', 1)[-1]}|direct", g.where(b),
+                           f"the (component, outcome) pair comes from {k.rsplit('::', 2)[-2]}::{k.rsplit('::', 1)[-1]}, not from the component's Scale::scale",
+                           sample=f"{g.where(b)}: pair ← component.scale(target)")
+        for i, j, st in g.iter_stmts():
+            if st["k"] == "assign" and st["place"]["l"] == 0 and not st["place"]["p"]:
+                found = True
+                rv = st["rv"]
+                if rv.get("k") == "agg" and rv.get("agg") == "tuple" and len(rv["ops"]) == 2:
+                    e = resolve(g, rv["ops"][1])
+                    pure = not any(x[0] in ("call", "agg", "bin", "phi", "const") for x in walk(e)) and any(l.startswith("param:") for l in leaves(e))
+                    chk.expect(pure, R, f"{g.key.rsplit('::', 1)[-1]}|outcome", f"{g.file}:{st.get('line')}",
+                               f"the outcome paired with a scaled component is {full(e)[:100]}, not the outcome its Scale::scale returned: the reported case no longer "
+                               "names what happened to the amount", sample=f"{g.file}:{st.get('line')}: outcome passed through unchanged")
+                else:
+                    chk.fail(R, f"{g.key.rsplit('::', 1)[-1]}|shape", f"{g.file}:{st.get('line')}",
+                             "a (component, outcome) pair is produced in a form this rule does not recognise (neither a Scale::scale result nor a rebuilt pair)")
+        if not found:
+            chk.fail(R, f"{g.key.rsplit('::', 1)[-1]}|shape", where, "no return value found for a (component, outcome) closure")
+    chk.floor(R, "(component, outcome) closures in ScalableRecipe::scale", n, 3, "src/scale.rs")
 
 
 def d4_lineage(chk, F):
